@@ -6,6 +6,9 @@
 //     every statement of every block and case clause (mode "dense");
 //   - simrt.NoYield(+1/-1) around mutex critical sections and once.Do calls,
 //     so that a task is never parked while it holds a lock;
+//   - simrt.Foreign(1) before every go statement of the code under test
+//     (none today): once the library runs goroutines of its own, the
+//     scheduler stops preempting for the rest of that scenario;
 //   - the knob seam: a `const ( chunkSize = ...; maxBlockSize = ... )`
 //     declaration inside a function becomes a `var` read from simrt.Knob with
 //     the original expression as default.
@@ -44,6 +47,7 @@ var (
 	knobNames = map[string]bool{"chunkSize": true, "maxBlockSize": true}
 
 	sites     []site
+	goStmts   int
 	knobFound []string
 	nextID    = 1
 )
@@ -75,7 +79,8 @@ func main() {
 			Mode  string   `json:"mode"`
 			Knobs []string `json:"knobs"`
 			Sites []site   `json:"sites"`
-		}{*mode, knobFound, sites}
+			GoStm int      `json:"go_statements"`
+		}{*mode, knobFound, sites, goStmts}
 		b, _ := json.Marshal(out)
 		if err := os.WriteFile(*sitesOut, b, 0o644); err != nil {
 			fatal(err)
@@ -275,6 +280,14 @@ func (rw *rewriter) stmt(s ast.Stmt) []ast.Stmt {
 				return []ast.Stmt{callStmt("NoYield", "1"), s, callStmt("NoYield", "-1")}
 			}
 		}
+	case *ast.GoStmt:
+		// the library starts a goroutine of its own: from here on the hand-off
+		// scheduler must not park anybody (a yield executed by that goroutine
+		// would be taken for the running task's), see simrt.Foreign
+		rw.expr(s.Call)
+		rw.changed = true
+		goStmts++
+		return []ast.Stmt{callStmt("Foreign", "1"), s}
 	case *ast.DeferStmt:
 		rw.expr(s.Call)
 		if lockKind(s.Call) == "unlock" {
